@@ -4,7 +4,7 @@ import re
 from ..core.engine import Res
 from ..core.rules import exhaustive_loop
 from ..core.rules import (who_calls, wire, guard, install, order, pair, field_discipline, arm_wiring, must_pass,
-                          assigns)
+                          assigns, operates_in_place)
 from ..core.origins import Origins
 
 CONFIGS = {'quick': ['A'], 'thorough': ['A', 'C', 'D']}     # configuration B has no private_message feature
@@ -60,6 +60,14 @@ def run(ctx):
               lambda P_: wire(P_, O, r'CiphertextProcessor::decryption_key$', 3, r'open_sender_data\(.*\)\.generation'), floor=1)
     ctx.check('WIRE', 'open: reuse guard comes from the authenticated sender data',
               lambda P_: wire(P_, O, r'MessageKey::decrypt$', 4, r'open_sender_data\(.*\)\.reuse_guard'), floor=1)
+    # a key handed out must be consumed in the STORED ratchet (current epoch: the group; prior epoch: the record held by the
+    # repository), not in a copy that is dropped afterwards -- otherwise the same ciphertext opens again
+    ctx.check('IN-PLACE', 'decryption consumes keys of the stored epoch state, not of a temporary copy',
+              lambda P_: operates_in_place(P_, 'Group::decrypt_incoming_ciphertext', r'CiphertextProcessor::new$', 0,
+                                           'the ciphertext processor that opens the message'), floor=1)
+    ctx.check('IN-PLACE', 'encryption advances the ratchet of the group, not of a temporary copy',
+              lambda P_: operates_in_place(P_, 'Group::create_ciphertext', r'CiphertextProcessor::new$', 0,
+                                           'the ciphertext processor that seals the message'), floor=1)
     # consuming accessors
     ctx.check('FIELD-DISCIPLINE', 'skipped-key history is consumed on hand-out',
               lambda P_: field_discipline(P_, 'SecretKeyRatchet', 'history',
